@@ -198,6 +198,8 @@ def c11Op (args : List String) : String :=
   | kind :: rest =>
     let sub := (kind.splitOn "-").headD ""
     if rest.contains "PANIC" && sub != "tpl" then "specfail " ++ kind ++ " law=no-panic" else
+    -- the harness compared the same two values built in two ways (edited copy / independently)
+    if (kind.splitOn "BUILD-DEPENDENT").length > 1 then "specfail " ++ kind ++ " law=outcome-depends-only-on-the-values" else
     let p : Option (P String) :=
       match sub with
       | "pair" => some (pairOp kind) | "indep" => some (indepOp kind) | "tri" => some (triOp kind)
